@@ -365,6 +365,61 @@ def model_line(case, levels, ci_override=None):
 QTYPES_IDX = {'sta': 0, 'pos': 1, 'smp': 2, 'gja': 3, 'neg': 4}
 
 
+def good_line(case, levels):
+    """input line of the extracted DECIDER of the hypotheses of the whole-run theorems (symmetric input, positive total
+    weight, every recorded move legal with exact gain > 0) for the three multi-level routines that have such a theorem"""
+    fnm = ROUTINES[case['fn']].fn
+    assert fnm in ('louvain_und', 'louvain_sign', 'community_louvain')
+    line = model_line(case, levels)
+    assert line.startswith(fnm + ' ')
+    return fnm + '_good' + line[len(fnm):]
+
+
+def probtune_stream(case, p):
+    """modularity_probtune_und_sign with a RECORDING RandomState: the permutation and every later draw become the explicit
+    stream of the extracted model run_probtune (Model/ModularityProb.v); the float-decided outcome of each deterministic
+    node (argmax / > 1e-10) is taken from the hook events. Returns (ci, q, steps, model line)."""
+    import bct
+    from bct.utils import _verif
+    W = np.array(case['_W'], dtype=float)
+    n = case['n']
+    rec = Rec(case['seed'])
+    kw = {'seed': rec, 'qtype': case['qtype'], 'p': p}
+    if case.get('ci') is not None:
+        kw['ci'] = np.array(case['ci'], dtype=int)
+    _verif.reset()
+    ci, q = call(bct.modularity_probtune_und_sign, W, gamma=float(case['_g']), _t=20.0, **kw)
+    moves = [d for tag, d in _verif.LOG if tag == 'move']
+    _verif.reset()
+    steps = [[int(d['u']), bool(d.get('random')), int(d['mb'])] for d in moves]
+    by_node = {int(d['u']): d for d in moves}
+    log = list(rec.log)
+    if not log or log[0][0] != 'permutation':
+        raise ValueError('unexpected draw sequence: %s' % [e[0] for e in log[:3]])
+    perm = [int(x) for x in log[0][3]]
+    draws, orc, i = [], [], 1
+    for u in perm:
+        if i >= len(log) or log[i][0] != 'random_sample':
+            raise ValueError('unexpected draw sequence at node %d' % u)
+        x = float(log[i][3]); i += 1
+        draws.append('0 ' + enc_qb(x))
+        if x < p:
+            if i >= len(log) or log[i][0] != 'randint':
+                raise ValueError('unexpected draw sequence at node %d' % u)
+            draws.append('1 %d' % int(log[i][3])); i += 1
+        else:
+            d = by_node.get(u)
+            orc.append('1 %d' % int(d['mb']) if (d is not None and not d.get('random')) else '0')
+    if i != len(log):
+        raise ValueError('%d unconsumed draws' % (len(log) - i))
+    ci0 = case.get('ci')
+    if ci0 is None:
+        ci0 = list(range(1, n + 1))
+    line = ('probtune ' + enc_mat(case['_W']) + ' ' + enc_q(case['_g']) + ' %d ' % QTYPES_IDX[case['qtype']] + enc_list(ci0)
+            + ' ' + enc_qb(p) + ' ' + enc_list(perm) + ' %d ' % len(draws) + ' '.join(draws) + ' %d ' % len(orc) + ' '.join(orc))
+    return ci, q, steps, line
+
+
 def dec_result(m):
     """model output -> dict"""
     lv = []
